@@ -979,6 +979,30 @@ theorem disc_implies_weakest (ops : List Reg3.Op) (hd : Reg3.Disc Reg3.init ops 
       exact ⟨Reg3.sound_of_dinv h d, ih (Reg3.step s op) (h.step op) (d.step h op hd.1) hd.2⟩
   exact key _ _ Reg3.TInv.init Reg3.DInv.init hd
 
+/-- Reg2's structural assumption made explicit: if every `set_status` call on a cell comes from ONE thread, the
+order of that thread's own calls (`Stopped` after its `Stopping` has returned — the text of `cleanup`) IS the
+discipline; so clause 5/6 and their pid analogues hold under "one caller + own order" -/
+theorem one_caller_own_order_is_enough (ops : List Reg3.Op) (h1 : ops.all Reg3.single = true)
+    (h2 : Reg3.All Reg3.ownOrdered Reg3.init ops = true) :
+    Reg3.Disc Reg3.init ops = true ∧ Reg3.Sound (Reg3.run Reg3.init ops) := by
+  have hd := Reg3.disc_of_single_run Reg3.SInv.init ops h1 h2
+  exact ⟨hd, fun n a h => whereIs_sound_threads ops hd n a h⟩
+
+/-- E-SRC: the discipline `Reg3.disc` for the source text.  `set_status(Stopping)` has exactly three call sites:
+`ActorLifecycleGuard::cleanup` and the end of `processing_loop` (Send and thread-local); `set_status(Stopped)` on
+a local cell only `cleanup` (`stopped_call_sites_match_source`; the other site is for a remote cell, which owns no
+registry entry — `unregister_guarded_by_is_local`).  `cleanup` is called only by the guard's `finish` and `drop`,
+the guard is not `Clone` (one owner), and `start` runs `processing_loop(..).await` and `lifecycle.finish(evt)`
+back to back in the one task it spawns (before the spawn the guard lives in `start`'s own frame): every
+`≥ Stopping` publish on a local cell is made by the thread of control that owns the cell's guard, and `Stopped`
+comes last in `cleanup`, after its own `set_status(Stopping)` returned -/
+theorem stopping_call_sites_match_source :
+    Extracted.stoppingCallSites = ["actor.rs:cleanup", "actor.rs:processing_loop", "inner.rs:processing_loop"] ∧
+    Extracted.cleanupCallers = ["finish", "drop"] ∧ Extracted.lifecycleGuardIsClone = false ∧
+    Extracted.loopThenFinishSameTask = [true, true] ∧
+    Extracted.cleanupOrder.head? = some "set_status:Stopping" ∧
+    Extracted.cleanupOrder.getLast? = some "set_status:Stopped" := by decide
+
 /-- non-vacuity: a run that obeys the discipline with two threads on one cell (thread 1 publishes `Running`
 while thread 0 stops the cell), the name is re-registered by a successor after the exit -/
 example :
@@ -1003,3 +1027,5 @@ end C10
 #print axioms C10.own_order_not_enough_with_two_callers
 #print axioms C10.weakest_hypothesis_exact
 #print axioms C10.disc_implies_weakest
+#print axioms C10.one_caller_own_order_is_enough
+#print axioms C10.stopping_call_sites_match_source
